@@ -188,7 +188,7 @@ def _run_shard(args):
     except subprocess.TimeoutExpired:
         return path, None, f'timeout after {timeout}s', time.time() - t0
     if rc != 0:
-        return path, None, out[-3000:], time.time() - t0
+        return path, None, f'coqc exit code {rc}: ' + out[-3000:], time.time() - t0
     return path, out, None, time.time() - t0
 
 
@@ -203,10 +203,17 @@ def run_model(prop: str, module: str, case_type: str, fn: str, literals: list[st
     if d.exists():
         shutil.rmtree(d)
     d.mkdir(parents=True)
-    jobs = []
-    for k in range(0, len(literals), shard):
-        chunk = literals[k:k + shard]
-        name = f'{tag}_{k // shard:04d}'
+    # shards are cut by number of cases and by size of their literals, so that one coqc process stays small
+    jobs, starts = [], []
+    max_bytes = 400_000
+    k = 0
+    while k < len(literals):
+        n, size = 0, 0
+        while k + n < len(literals) and n < shard and (n == 0 or size + len(literals[k + n]) <= max_bytes):
+            size += len(literals[k + n])
+            n += 1
+        chunk = literals[k:k + n]
+        name = f'{tag}_{len(jobs):04d}'
         p = d / f'{name}.v'
         body = ';\n  '.join(chunk)
         p.write_text(
@@ -215,17 +222,19 @@ def run_model(prop: str, module: str, case_type: str, fn: str, literals: list[st
             f'Definition cases : list ({case_type}) := [\n  {body}\n].\n'
             f'Eval vm_compute in ({fn} cases).\n')
         jobs.append((p, timeout))
+        starts.append(k)
+        k += n
     fails: list[tuple[int, int]] = []
     with concurrent.futures.ThreadPoolExecutor(max_workers=14) as ex:
         for path, out, err, dt in ex.map(_run_shard, jobs):
             if err is not None:
                 raise Broken(f'model evaluation failed on {path}: {err}')
-            k = int(path.stem.split('_')[-1])
+            j = int(path.stem.split('_')[-1])
             m = re.search(r'=\s*(\[.*?\])\s*:\s*list', out, flags=re.S)
             if not m:
                 raise Broken(f'cannot parse model output of {path}: {out[-500:]}')
             for i, c in _FAIL_RE.findall(m.group(1)):
-                fails.append((k * shard + int(i), int(c)))
+                fails.append((starts[j] + int(i), int(c)))
     shutil.rmtree(d, ignore_errors=True)
     return sorted(fails)
 
